@@ -18,10 +18,10 @@ import (
 // C10: folder transfers reproduce the tree, item by item (DESIGN §6 C10).
 
 type treeNode struct {
-	Rel   string // slash separated path relative to the folder root
-	Dir   bool
-	Data  []byte
-	Dot   bool // name starts with a dot (must not be transferred)
+	Rel  string // slash separated path relative to the folder root
+	Dir  bool
+	Data []byte
+	Dot  bool // name starts with a dot (must not be transferred)
 }
 
 // genTree builds a deterministic tree description.
